@@ -1,9 +1,11 @@
 //! Scratch witnesses for candidate findings. Each test PASSES when the defect is observed.
 use crate::{
     api::{get_balance, get_utxos},
-    genesis_block, heartbeat, state,
-    test_utils::{BlockBuilder, BlockChainBuilder, TransactionBuilder},
-    types::{Address, GetBalanceRequest, GetUtxosRequest},
+    genesis_block, heartbeat, runtime,
+    runtime::GetSuccessorsReply,
+    state,
+    test_utils::{BlockBuilder, TransactionBuilder},
+    types::{Address, GetBalanceRequest, GetSuccessorsPartialResponse, GetSuccessorsResponse, GetUtxosRequest},
     with_state, with_state_mut,
 };
 use ic_btc_interface::{
@@ -322,4 +324,52 @@ async fn w_f11_partial_with_zero_followups() {
     println!("F11: after 2: {:?}", with_state(|s| s.syncing_state.response_to_process.as_ref().map(|r| match r { state::ResponseToProcess::Partial(p, k) => format!("Partial(rfu={}, k={})", p.remaining_follow_ups, k), state::ResponseToProcess::Complete(_) => "Complete".into() })));
     assert_eq!(with_state(state::main_chain_height), 0); // block still not applied
     heartbeat().await; // asserts remaining_follow_ups >= k -> traps, and would trap on every later round
+}
+
+// F12: the stable address index orders outpoints by key bytes (vout little-endian), the unstable side
+// by the derived Ord of OutPoint (vout numeric). A page boundary inside a transaction with more than
+// 256 outputs to one address, followed by that block's stabilisation before the next page, makes the
+// follow-up page repeat some elements and omit others.
+#[test]
+fn w_f12_page_union_changes_when_boundary_block_stabilises() {
+    use std::collections::BTreeSet;
+    init(2);
+    let network = Network::Regtest;
+    let addr: Address = random_p2pkh_address(into_bitcoin_network(network)).into();
+    let g = genesis_block(network);
+    let mut tx = TransactionBuilder::coinbase();
+    for j in 0..1200u64 {
+        tx = tx.with_output(&addr, 1_000 + j);
+    }
+    let b1 = BlockBuilder::with_prev_header(g.header()).with_transaction(tx.build()).build();
+    let b2 = BlockBuilder::with_prev_header(b1.header()).build();
+    let b3 = BlockBuilder::with_prev_header(b2.header()).build();
+    insert(&b1);
+    insert(&b2);
+    with_state_mut(|s| { state::ingest_stable_blocks_into_utxoset(s); });
+    assert_eq!(with_state(|s| s.utxos.next_height()), 1);
+    let p1 = get_utxos(GetUtxosRequest { address: addr.to_string(), filter: None }).unwrap();
+    assert_eq!(p1.utxos.len(), 1000);
+    let next = p1.next_page.clone().unwrap();
+    // reference: the follow-up page while block 1 is still unstable
+    let p2_before = get_utxos(GetUtxosRequest { address: addr.to_string(), filter: Some(UtxosFilter::Page(next.clone())) }).unwrap();
+    // block 3 arrives; block 1 becomes stable and is ingested; block 2 (the pages' tip) is the new anchor
+    insert(&b3);
+    with_state_mut(|s| { state::ingest_stable_blocks_into_utxoset(s); });
+    assert_eq!(with_state(|s| s.utxos.next_height()), 2);
+    let p2_after = get_utxos(GetUtxosRequest { address: addr.to_string(), filter: Some(UtxosFilter::Page(next)) }).unwrap();
+    assert_eq!(p2_after.tip_block_hash, p1.tip_block_hash);
+    let vouts = |u: &Vec<ic_btc_interface::Utxo>| u.iter().map(|x| x.outpoint.vout).collect::<BTreeSet<u32>>();
+    let first = vouts(&p1.utxos);
+    let before = vouts(&p2_before.utxos);
+    let after = vouts(&p2_after.utxos);
+    assert_eq!(first.len() + before.len(), 1200);
+    assert!(first.is_disjoint(&before));
+    let union: BTreeSet<u32> = first.union(&after).cloned().collect();
+    println!("F12: page 2 before stabilisation {} utxos, after {} utxos; repeated {} ; missing {}",
+        before.len(), p2_after.utxos.len(), first.intersection(&after).count(), 1200 - union.len());
+    // the defect: the same page token now yields a different page: elements of page 1 are repeated
+    // and others are missing from the union
+    assert!(first.intersection(&after).count() > 0);
+    assert!(union.len() < 1200);
 }
